@@ -21,7 +21,7 @@ PLAN = {
 
 DEPS = {
     "C01": ["theories/Proofs/CommThms.vo"], "C02": ["theories/Proofs/CommThms.vo"],
-    "C03": ["theories/Proofs/CommThms.vo"], "C04": ["theories/Proofs/CommThms.vo"],
+    "C03": ["theories/Proofs/CommThms.vo"], "C04": ["theories/Proofs/CommThms.vo", "theories/Proofs/CommTime.vo"],
     "C09": ["theories/Proofs/PopenProofs.vo", "theories/Proofs/StatusProofs.vo"],
     "C10": ["theories/Proofs/PopenProofs.vo"], "C11": ["theories/Proofs/PopenProofs.vo"],
 }
